@@ -1,9 +1,126 @@
-import Oracle.Proto
-namespace Oracle.C07
+/-
+  Oracle.C07 — runs `Model.Ctx` (the definitions the C05–C07 theorems are about) on the op lines of
+  the c07 harness and prints what the model says, in the harness's own format:
 
-/-- placeholder: the oracle driver for C07 is not built yet -/
-def main (_args : List String) : IO UInt32 := do
-  IO.eprintln "oracle mode c07: not built"
-  return 2
+      H <id>                                   → H <id>
+      <op> <args…> [= <anything>]              → <op> <args…> = <outcome> | <frame> | <frame> …
+      frame = hc hm ht sc sm st uc um ut status due flags          (active context first)
+
+  mode `flat` (default): one model state per history, reset at every `H` line.
+-/
+import Oracle.Proto
+import GoluaVerif.Model.Ctx
+import GoluaVerif.Model.CallCtx
+namespace Oracle.C07
+open GoluaVerif GoluaVerif.Model.Ctx GoluaVerif.Generated.Resources
+
+def canonMs (v : BitVec 64) : Nat := ((v.toNat + 2 ^ 20) >>> 21) <<< 21
+
+def frameStr (f : Frame) : String :=
+  s!"{f.hard.Cpu.toNat} {f.hard.Memory.toNat} {canonMs f.hard.Millis} {f.soft.Cpu.toNat} {f.soft.Memory.toNat} {canonMs f.soft.Millis} {f.used.Cpu.toNat} {f.used.Memory.toNat} {canonMs f.used.Millis} {f.status.toNat} {if f.due then 1 else 0} {f.flags.toNat}"
+
+def stackStr (s : St) : String :=
+  (s.cur :: s.parents).foldl (fun acc f => acc ++ " | " ++ frameStr f) ""
+
+def outcomeStr : Outcome → String
+  | .ok => "ok"
+  | .terminated => "terminated"
+  | .crash => "crash"
+
+def nat64? (s : String) : Option (BitVec 64) := s.toNat?.map (BitVec.ofNat 64)
+
+def parseOp (ws : List String) : Option Op :=
+  match ws with
+  | ["push", a, b, c, d, e, f, g] => do
+    let hc ← nat64? a; let hm ← nat64? b; let ht ← nat64? c
+    let sc ← nat64? d; let sm ← nat64? e; let st ← nat64? f
+    let fl ← g.toNat?
+    some (.push ⟨⟨hc, hm, ht⟩, ⟨sc, sm, st⟩, BitVec.ofNat 16 fl⟩)
+  | ["pop"] => some .pop
+  | ["cpu", n] => (nat64? n).map .reqCpu
+  | ["mem", n] => (nat64? n).map .reqMem
+  | ["rel", n] => (nat64? n).map .relMem
+  | ["stop", n] => n.toNat?.map fun l => .stop (BitVec.ofNat 8 l)
+  | _ => none
+
+def opPart (line : String) : String :=
+  match line.splitOn " = " with
+  | a :: _ => a
+  | [] => line
+
+/-! ### bracketed form -/
+open GoluaVerif.Model.CallCtx in
+partial def parseItem (tok : Array String) (pos : Nat) : Option (Item × Nat) :=
+  match tok[pos]? with
+  | some "err" => some (.err, pos + 1)
+  | some "(" =>
+    match tok[pos + 1]? with
+    | some "call" => do
+      let nums ← (List.range 7).mapM fun i => (tok[pos + 2 + i]?).bind String.toNat?
+      match nums with
+      | [a, b, c, d, e, f, g] =>
+        let d0 : CtxDef := ⟨⟨.ofNat 64 a, .ofNat 64 b, .ofNat 64 c⟩, ⟨.ofNat 64 d, .ofNat 64 e, .ofNat 64 f⟩, .ofNat 16 g⟩
+        let rec loop (p : Nat) (acc : Array Item) : Option (Array Item × Nat) :=
+          match tok[p]? with
+          | some ")" => some (acc, p + 1)
+          | some _ => match parseItem tok p with
+            | some (it, p') => loop p' (acc.push it)
+            | none => none
+          | none => none
+        let (body, p) ← loop (pos + 9) #[]
+        some (.call d0 body.toList, p)
+      | _ => none
+    | some k => do
+      let n ← (tok[pos + 2]?).bind String.toNat?
+      if tok[pos + 3]? ≠ some ")" then none else
+      let o ← parseOp [k, toString n]
+      some (.op o, pos + 4)
+    | none => none
+  | _ => none
+
+open GoluaVerif.Model.CallCtx in
+def exitStr : Exit → String
+  | .done => "done" | .error => "error" | .killed => "killed" | .crashed => "crashed"
+
+open GoluaVerif.Model.CallCtx in
+def treeLine (line : String) : String :=
+  let o := opPart line
+  let tok := ((o.drop 2).toString.splitOn " " |>.filter (· ≠ "")).toArray
+  match parseItem tok 0 with
+  | none => "bad-line"
+  | some (it, _) =>
+    let (a, ex) := exec St.init it
+    let rs := a.results.reverse.foldl (fun acc (r : CallResult) =>
+      acc ++ s!" {r.depth}:{r.status.toNat}:{r.used.Cpu.toNat}:{r.used.Memory.toNat}:{exitStr r.exit}") ""
+    o ++ " = " ++ exitStr ex ++ " ;" ++ rs ++ " ;" ++ stackStr a.st
+
+def flat : IO UInt32 := do
+  let stdin ← IO.getStdin
+  let stdout ← IO.getStdout
+  let st ← IO.mkRef St.init
+  Oracle.forEachLine stdin fun line => do
+    if line.startsWith "T " then
+      stdout.putStrLn (treeLine line)
+    else if line.startsWith "H" then
+      st.set St.init
+      stdout.putStrLn line
+    else
+      let o := opPart line
+      match parseOp (o.splitOn " " |>.filter (· ≠ "")) with
+      | none => stdout.putStrLn "bad-line"
+      | some op =>
+        let (s', out) := step (← st.get) op
+        st.set s'
+        stdout.putStrLn (o ++ " = " ++ outcomeStr out ++ stackStr s')
+  stdout.flush
+  return 0
+
+def main (args : List String) : IO UInt32 := do
+  match args with
+  | [] => flat
+  | ["flat"] => flat
+  | _ => do
+    IO.eprintln "oracle c07 [flat]"
+    return 2
 
 end Oracle.C07
